@@ -104,6 +104,14 @@ M = [
     ("C18", "skip-dup-check", "black_it/calibrator.py", "            if sampler_name in self.samplers_id_table:\n                continue\n\n            self.samplers_id_table[sampler_name] = sampler_id\n            sampler_id = sampler_id + 1\n", "            if sampler_name in self.samplers_id_table and sampler_name != 'SamplerC':\n                continue\n\n            self.samplers_id_table[sampler_name] = sampler_id\n            sampler_id = sampler_id + 1\n"),
     ("C18", "plot-iterates", "black_it/plot/plot_results.py", 'method_list = list(getattr(scheduler, "samplers", scheduler))', "method_list = scheduler"),
     ("C18", "label-by-index", "black_it/calibrator.py", "[self.samplers_id_table[type(method).__name__]]\n                        * method.batch_size,", "[list(self.scheduler.samplers).index(method)]\n                        * method.batch_size,"),
+    ("C04", "no-roundtrip-parser", "black_it/utils/json_pandas_checkpointing.py", '        float_precision="round_trip",\n', ""),
+    ("C04", "forget-counter", "black_it/calibrator.py", "        calibrator.n_sampled_params = n_sampled_params\n", ""),
+    ("C04", "forget-rng-state", "black_it/calibrator.py", "        calibrator.random_generator.bit_generator.state = random_generator_state\n", "        pass\n"),
+    ("C04", "swap-label-columns", "black_it/utils/json_pandas_checkpointing.py", '        cr["batch_num_samp"].to_numpy(),\n        cr["method_samp"].to_numpy(),', '        cr["method_samp"].to_numpy(),\n        cr["batch_num_samp"].to_numpy(),'),
+    ("C04", "h5-append-offbyone", "black_it/utils/json_pandas_checkpointing.py", "            to_append = series_samp[nb_rows:]  # Slicing out only the new part", "            to_append = series_samp[nb_rows + 1 :] if nb_rows else series_samp[nb_rows:]"),
+    ("C04", "ckpt-every-other", "black_it/calibrator.py", "                if self.saving_folder is not None:\n                    self.create_checkpoint(self.saving_folder)", "                if self.saving_folder is not None and self.current_batch_index % 2 == 0:\n                    self.create_checkpoint(self.saving_folder)"),
+    ("C04", "verbose-not-restored", "black_it/calibrator.py", "            verbose=verbose,\n            saving_folder=saving_file,", "            verbose=True,\n            saving_folder=saving_file,"),
+    ("C04", "series-float32", "black_it/utils/json_pandas_checkpointing.py", '            dtype="float64",', '            dtype="float32",'),
     ("C15", "no-tolerance", "black_it/search_space.py", "parameters_bounds[1][i] + 0.0000001,", "parameters_bounds[1][i],"),
 ]
 
